@@ -152,6 +152,31 @@ impl Group for C14 {
             mk_t("s", &[("add", "c", &[F, UC]), ("add", "s", &[SC]), ("remove", "c", &[SC])]),
             // closed by a counterparty commitment that pays us nothing: swept from the start; reorg of the close
             mk_t("a", &[("add", "c", &[F]), ("add", "s", &[UN]), ("add", "c", &[]), ("remove", "c", &[]), ("remove", "s", &[UN]), ("add", "c", &[UN])]),
+            // a reorg exactly as deep as the header window (MAX_REORG_SIZE = 100), then the chain grows again
+            {
+                let mut v = vec![typed_init("s")];
+                v.push(line("add", "c", &[F]));
+                v.push("addn 100".to_string());
+                v.push("removen 100".to_string());
+                v.push(line("add", "c", &[M]));
+                v
+            },
+            // an outpoint seen spent before a restart must still be reported in the reverse watches after it: mutual close,
+            // restart, reorg of the close with follower-built compact proofs (several blocks, so that both proof styles occur)
+            {
+                let mut v = vec![typed_init("s")];
+                v.push(line("add", "c", &[F]));
+                v.push(line("add", "c", &[M]));
+                v.push("restart".to_string());
+                v.push(line("remove", "c", &[M]));
+                v.push(line("add", "c", &[M]));
+                v.push("restart".to_string());
+                v.push(line("add", "c", &[]));
+                v.push(line("remove", "c", &[]));
+                v.push(line("remove", "c", &[M]));
+                v.push(line("add", "c", &[U]));
+                v
+            },
             // everything in one block
             mk(&[("add", "c", &[F, U, S, T12, V12A, V12B]), ("remove", "c", &[F, U, S, T12, V12A, V12B]), ("add", "c", &[D])]),
         ]
@@ -257,6 +282,7 @@ impl Group for C14 {
         let steps = rng.range(3, if tier == Tier::Quick { 9 } else { 16 });
         let aggressive = rng.chance(2, 3);
         for _ in 0..steps {
+            if rng.chance(1, 5) { ops.push("restart".to_string()); }
             if rng.chance(1, 6) {
                 // a block of the competing branch arrives before the disconnections: refused as orphan
                 let blk = if rng.chance(1, 2) { vec![X0 + 3] } else { vec![] };
@@ -307,6 +333,61 @@ impl Group for C14 {
                     w = Some(nw);
                     chain.clear();
                     format!("ok {}", d)
+                }
+                ["restart"] => {
+                    let wd = w.as_mut().expect("init first");
+                    match wd.restart() {
+                        StepResult::Ok => {
+                            co.tags.insert("restart".into());
+                            let view = strip_sb(&wd.digest());
+                            let reference = expected_view(wd, &chain);
+                            if view != reference {
+                                co.violations.push(Violation { kind: "view-differs-from-chain".into(),
+                                    desc: format!("after the restart the monitor shows [{}] but the surviving chain implies [{}]", view, reference), at: i });
+                            }
+                            format!("ok {}", wd.digest())
+                        }
+                        StepResult::Err(e) | StepResult::Panic(e) => {
+                            dead = true;
+                            co.violations.push(Violation { kind: "restart-abort".into(), desc: format!("restore_node failed: {}", e), at: i });
+                            "panic".to_string()
+                        }
+                    }
+                }
+                [dirn @ ("addn" | "removen"), k] => {
+                    // k empty blocks connected / disconnected in a row (compact), monitors at the end
+                    let wd = w.as_mut().expect("init first");
+                    let k: usize = k.parse().unwrap();
+                    let mut res = String::new();
+                    for j in 0..k {
+                        let r = if *dirn == "addn" { wd.add_block(&[], false) } else { wd.remove_block(&[]) };
+                        match r {
+                            StepResult::Ok => { if *dirn == "addn" { chain.push(vec![]); } else { chain.pop(); } }
+                            StepResult::Err(e) => {
+                                co.violations.push(Violation { kind: "valid-block-rejected".into(),
+                                    desc: format!("{}: request {} of {} (a valid {} with a correct proof) was rejected: {}", op, j + 1, k, if *dirn == "addn" { "connection" } else { "disconnection" }, e), at: i });
+                                res = format!("err {}", wd.digest());
+                                break;
+                            }
+                            StepResult::Panic(msg) => {
+                                dead = true;
+                                co.violations.push(Violation { kind: if *dirn == "removen" { "reorg-abort".into() } else { "add-abort".into() }, desc: format!("{} panicked: {}", op, msg), at: i });
+                                res = "panic".into();
+                                break;
+                            }
+                        }
+                    }
+                    if res.is_empty() {
+                        co.tags.insert(format!("{}:{}", dirn, k));
+                        let view = strip_sb(&wd.digest());
+                        let reference = expected_view(wd, &chain);
+                        if view != reference {
+                            co.violations.push(Violation { kind: "view-differs-from-chain".into(),
+                                desc: format!("after {} the monitor shows [{}] but the surviving chain implies [{}]", op, view, reference), at: i });
+                        }
+                        res = format!("ok {}", wd.digest());
+                    }
+                    res
                 }
                 ["orphan", delivery, rest @ ..] => {
                     let wd = w.as_mut().expect("init first");
